@@ -119,9 +119,9 @@ static int32 Recv(uint8 * buf, uint32 numBytes, void * arg)
    memcpy(buf, f->d+f->pos, c); f->pos += c;
    return (int32) c;
 }
-static void Gateway(const char * v, const unsigned char * s, size_t n, const unsigned char * want, size_t wn, int mode)
+static void Gateway(const char * v, const unsigned char * s, size_t n, const unsigned char * want, size_t wn, int mode, uint32 IN)
 {
-   const uint32 IN = 4096; unsigned char * inbuf = (unsigned char *) malloc(IN), * outbuf = (unsigned char *) malloc(64);
+   unsigned char * inbuf = (unsigned char *) malloc(IN), * outbuf = (unsigned char *) malloc(64);
    UMessageGateway gw; Feed f; int got = 0, calls = 0, firstOK = 0; const size_t c[] = {1, 7, 8, 9, 12, 20, (n > 1) ? n-1 : 0}; size_t i;
    memset(&f, 0, sizeof(f)); f.d = s; f.n = n; f.mode = mode;
    for (i=0; i<sizeof(c)/sizeof(c[0]); i++) if ((c[i] > 0)&&(c[i] < n)&&((f.ncuts == 0)||(c[i] > f.cuts[f.ncuts-1]))) f.cuts[f.ncuts++] = c[i];
@@ -135,6 +135,7 @@ static void Gateway(const char * v, const unsigned char * s, size_t n, const uns
       if ((r == 0)&&(f.pos >= f.n)) break;
    }
    if ((!strcmp(v, "A"))&&(wn <= IN)&&((got == 0)||(!firstOK))) Note("violations", "UGDoInput: a valid stream was not handed over as the Message it encodes", s, n);
+   if ((!strcmp(v, "A"))&&(wn > IN)&&(got > 0)) Note("violations", "UGDoInput: a Message larger than the input buffer was handed over", s, n);
    if ((!strcmp(v, "I"))&&(got > 0)) Note("violations", "UGDoInput: a UMessage was handed over although the frame is incomplete", s, n);
    alarm(0); free(inbuf); free(outbuf);
 }
@@ -175,14 +176,20 @@ int main(int argc, char ** argv)
          if (valid)
          {
             unsigned char * fr = (unsigned char *) malloc(nb+8); fr[0] = nb&0xFF; fr[1] = (nb>>8)&0xFF; fr[2] = (nb>>16)&0xFF; fr[3] = (nb>>24)&0xFF; fr[4] = 0x30; fr[5] = 0x63; fr[6] = 0x6e; fr[7] = 0x45; memcpy(fr+8, b, nb);
-            Gateway(v, fr, nb+8, b, nb, (int)(idx%3)); free(fr);
+            g_reportsThisCase = 0;
+            Gateway(v, fr, nb+8, b, nb, (int)(idx%3), 4096);
+            Gateway(v, fr, nb+8, b, nb, 0, (uint32) nb);                      /* the body fills the input buffer exactly: allowed */
+            if (nb > 12) Gateway(v, fr, nb+8, b, nb, 0, (uint32) nb-1);      /* one byte too large: must be refused, nothing may be written behind the buffer */
+            if (g_reportsThisCase > 0) {char t2[400]; snprintf(t2, sizeof(t2), "sanitizer report in UGDoInput: %s", g_firstReport); Note("violations", t2, fr, nb+8);}
+            free(fr);
          }
       }
       else if (!strcmp(enc, "frame"))
       {
          const unsigned char * want = (nb >= 8) ? b+8 : b; const size_t wn = ((isA)&&(nb >= 8)) ? R32(b) : 0; int mode;
          g_reportsThisCase = 0;
-         for (mode=0; mode<3; mode++) Gateway(v, b, nb, want, wn, mode);
+         for (mode=0; mode<3; mode++) Gateway(v, b, nb, want, wn, mode, 4096);
+         if (isA) {Gateway(v, b, nb, want, wn, 0, (uint32) wn); if (wn > 12) Gateway(v, b, nb, want, wn, 0, (uint32) wn-1);}
          if (g_reportsThisCase > 0) {char t[400]; snprintf(t, sizeof(t), "sanitizer report in UGDoInput: %s", g_firstReport); Note("violations", t, b, nb);}
       }
       free(b); n++;
